@@ -65,6 +65,46 @@ pub struct BigSize(pub u64);
 //@ensures P C13,C12 a-stream-that-ends-before-a-required-tlv-type-is-refused
     r == (m_last_seen_type is None || m_last_seen_type->Some_0 < m_type),
 //@end
+//@extract lightning/src/util/ser_macros.rs :: macro_rules _check_missing_tlv
+//@metavars
+//@slice R15
+    let missing_req_type = $e:seq; if missing_req_type { m_field = m_default.into(); }
+//@with
+    fn default_value_applies_at_the_end(m_last_seen_type: Option<u64>, m_type: u64) -> bool { let missing_req_type = $e; missing_req_type }
+//@ret r
+//@ensures P C12,C13 a-default-replaces-a-field-at-the-end-of-the-stream-only-when-its-type-was-not-reached
+    r == (m_last_seen_type is None || m_last_seen_type->Some_0 < m_type),
+//@end
+//@extract lightning/src/util/ser_macros.rs :: macro_rules _check_missing_tlv
+//@metavars
+//@slice R15
+    let missing_req_type = $e:seq; if missing_req_type { let read_result: Result<_, DecodeError> = m_read(None); m_field = read_result?.into(); }
+//@with
+    fn custom_fallback_applies_at_the_end(m_last_seen_type: Option<u64>, m_type: u64) -> bool { let missing_req_type = $e; missing_req_type }
+//@ret r
+//@ensures P C12,C13 the-absent-value-fallback-of-a-custom-field-runs-at-the-end-of-the-stream-only-when-its-type-was-not-reached
+    r == (m_last_seen_type is None || m_last_seen_type->Some_0 < m_type),
+//@end
+//@extract lightning/src/util/ser_macros.rs :: macro_rules _check_decoded_tlv_order
+//@metavars
+//@slice R15
+    let invalid_order = $e:seq; if invalid_order { m_field = m_default.into(); }
+//@with
+    fn default_value_applies_mid_stream(m_last_seen_type: Option<u64>, m_typ: &BigSize, m_type: u64) -> bool { let invalid_order = $e; invalid_order }
+//@ret r
+//@ensures P C12,C13 a-default-replaces-a-field-mid-stream-only-when-the-stream-has-moved-past-its-type-without-carrying-it
+    r == ((m_last_seen_type is None || m_last_seen_type->Some_0 < m_type) && m_typ.0 > m_type),
+//@end
+//@extract lightning/src/util/ser_macros.rs :: macro_rules _check_decoded_tlv_order
+//@metavars
+//@slice R15
+    let invalid_order = $e:seq; if invalid_order { let read_result: Result<_, DecodeError> = m_read(None); m_field = read_result?.into(); }
+//@with
+    fn custom_fallback_applies_mid_stream(m_last_seen_type: Option<u64>, m_typ: &BigSize, m_type: u64) -> bool { let invalid_order = $e; invalid_order }
+//@ret r
+//@ensures P C12,C13 the-absent-value-fallback-of-a-custom-field-runs-mid-stream-only-when-the-stream-has-moved-past-its-type-without-carrying-it
+    r == ((m_last_seen_type is None || m_last_seen_type->Some_0 < m_type) && m_typ.0 > m_type),
+//@end
 // ---- writing side: a record is type, then the length of the value's serialization, then the value --------------------
 pub struct ByteWriter { pub data: Ghost<Seq<u8>> }
 pub struct IoError {}
